@@ -263,7 +263,7 @@ func TestVerif_C07(t *testing.T) {
 	if err != nil {
 		t.Fatal(err)
 	}
-	defer w.close()
+	defer func() { go w.close() }()
 	var rp c07Case
 	if r.ReplayInto(&rp) {
 		c07Run(r, w, rp)
@@ -281,7 +281,15 @@ func TestVerif_C07(t *testing.T) {
 			if s > 200000 && (p == "fwd-up" || p == "fwd-down") && !r.Thorough() {
 				continue
 			}
+			nv := r.NumViolations()
 			c07Run(r, w, c07Case{p, s})
+			if w.nt.dirty || r.NumViolations() > nv {
+				// a failed case may leave frames in flight or a blocked delivery: start from a fresh mesh
+				go w.close()
+				if w, err = c07Build(); err != nil {
+					t.Fatal(err)
+				}
+			}
 		}
 	}
 	r.Sample(c07Case{"tcp-up", 16357})
